@@ -51,7 +51,9 @@ def run_fixed(ctx):
     return n, out
 
 
-def run_net(ctx, keys_for_pid, scripts_cap=None, parts=("honest_exh", "honest_sim", "byz_exh", "byz_sim", "chg_sim")):
+def run_net(ctx, keys_for_pid, scripts_cap=None, parts=("honest_exh", "honest_sim", "byz_exh", "byz_sim", "chg_sim"), invalid=False):
+    """invalid=True (C01): the Byzantine configurations also offer blocks that break a BFT rule of verifyBlock
+    (Net.tla ByzForgeInvalid); the part "chg_byz_sim" (validator-set changes with a Byzantine validator of four) exists for C01"""
     quick = ctx.tier == "quick"
     binp = ctx.go_build("./cmd/net")
     runs = []
@@ -78,9 +80,22 @@ def run_net(ctx, keys_for_pid, scripts_cap=None, parts=("honest_exh", "honest_si
     chg = dict(ParamChoices="Choices3", MaxChg=1)
     runs.append(("net_chg_sim", dict(chg, MaxChg=2, MaxSteps=30, MaxBlocks=16, MaxHeight=10, Now=24, DumpEvery=1, SkipDiscard="TRUE", SlotSpan=3),
                  dict(workers=1, timeout=900, simulate=150 if quick else 1500, depth=32, seed=ctx.seed + 23), dict(nval=3, pcT=2, now=24, choices=choices)))
-    part_of = dict(net_chg_sim="chg_sim", net_exh="honest_exh", net_sim="honest_sim", net_byz_exh="byz_exh", net_byz_sim="byz_sim")
+    # C01: the same with one Byzantine validator of four (weight 1/4, 1/5 after the re-weighting; it may leave and come back)
+    choices4 = [dict(pcT=3, certT=3, w=[2, 1, 1, 1], gens=[2, 4, 1, 3]), dict(pcT=2, certT=2, w=[1, 1, 1, 0], gens=[3, 1, 2])]
+    runs.append(("net_chg_byz_sim", dict(byz, ParamChoices="Choices4", MaxChg=2, MaxSteps=34, MaxBlocks=20, MaxHeight=11, Now=30, MaxByz=4, DumpEvery=1, SkipDiscard="TRUE", SlotSpan=4),
+                 dict(workers=1, timeout=900, simulate=150 if quick else 1500, depth=36, seed=ctx.seed + 37), dict(hbyz, now=30, choices=choices4)))
+    part_of = dict(net_chg_sim="chg_sim", net_exh="honest_exh", net_sim="honest_sim", net_byz_exh="byz_exh", net_byz_sim="byz_sim", net_chg_byz_sim="chg_byz_sim")
     runs = [r for r in runs if part_of[r[0]] in parts]
-    total = dict(scripts=0, steps=0, forges=0, delivers=0, restarts=0, byzantine_forges=0, byzantine_delivers=0, scripts_with_finality=0, finalized_prefix_pairs_compared=0)
+    if invalid:
+        for r in runs:
+            # (not in the exhaustive configuration: its VIEW merges a state reached through a rejected block with the same
+            # network state reached otherwise, so almost no dumped script would contain one)
+            if r[0] in ("net_byz_sim", "net_chg_byz_sim"):
+                r[1]["MaxInvalid"] = 2
+    total = dict(scripts=0, steps=0, forges=0, delivers=0, restarts=0, byzantine_forges=0, byzantine_delivers=0, scripts_with_finality=0, finalized_prefix_pairs_compared=0,
+                 invalid_blocks_followed_by_steps=0, scripts_continued_after_finalized_height_left_the_model=0, steps_with_finalized_prefix_bookkeeping=0,
+                 finality_raises_with_events_compared=0, finality_raises_through_sync_with_events_compared=0, finalize_events_compared=0)
+    inv = {}; invtwin = {}
     branches = {}; syncs = {}
     sample = None
     cap = scripts_cap or (250 if quick else 3000)
@@ -113,6 +128,10 @@ def run_net(ctx, keys_for_pid, scripts_cap=None, parts=("honest_exh", "honest_si
             branches[k] = branches.get(k, 0) + v
         for k, v in (res.get("sync_outcomes") or {}).items():
             syncs[k] = syncs.get(k, 0) + v
+        for k, v in (res.get("invalid_blocks_offered") or {}).items():
+            inv[k] = inv.get(k, 0) + v
+        for k, v in (res.get("invalid_blocks_whose_valid_twin_is_accepted") or {}).items():
+            invtwin[k] = invtwin.get(k, 0) + v
         other = []
         for v in list(res.get("violations") or []):
             if v["key"].startswith("net:hang") and isinstance(v.get("replay"), dict):
@@ -143,9 +162,24 @@ def run_net(ctx, keys_for_pid, scripts_cap=None, parts=("honest_exh", "honest_si
             res["scripts_with_finality"], res["finalized_prefix_pairs_compared"], sorted(set(v["key"] for v in res.get("violations") or []))))
         if other:
             log("[net] note: violations belonging to other properties were observed: %s" % sorted(set(other)))
+    if invalid and not ctx.violations:
+        # non-vacuity (C01): both rules of verifyBlock were attacked, by blocks whose valid twin the same code accepts, with steps after them
+        mhp = invtwin.get("mhp+1", 0) + invtwin.get("mhp-1", 0)
+        if mhp == 0 or invtwin.get("contra", 0) == 0 or total["invalid_blocks_followed_by_steps"] == 0:
+            raise Inconclusive("blocks that break a BFT rule of verifyBlock were not offered in both kinds (offered %s, with an accepted valid twin %s): vacuous" % (inv, invtwin))
     need_fin = "honest_sim" in parts
     if not ctx.violations and (total["delivers"] < 100 or branches.get("differentchain", 0) < 10 or (need_fin and total["scripts_with_finality"] == 0)):
         raise Inconclusive("network scripts did not exercise enough (delivers / syncs / finality): vacuous")
-    return dict(net_byzantine_blocks=total["byzantine_forges"], net_byzantine_announcements=total["byzantine_delivers"], net_unreproduced_deadline_misses=total.get("unreproduced_deadline_misses", 0), net_scripts=total["scripts"], net_restarts=total["restarts"], net_steps=total["steps"], net_forges=total["forges"], net_delivers=total["delivers"],
+    extra = {}
+    if invalid:
+        extra = dict(net_invalid_blocks_offered=inv, net_invalid_blocks_whose_valid_twin_is_accepted=invtwin,
+                     net_invalid_blocks_followed_by_steps=total["invalid_blocks_followed_by_steps"],
+                     net_scripts_continued_after_finalized_height_left_the_model=total["scripts_continued_after_finalized_height_left_the_model"],
+                     net_steps_with_finalized_prefix_bookkeeping=total["steps_with_finalized_prefix_bookkeeping"])
+    return dict(extra, net_byzantine_blocks=total["byzantine_forges"], net_byzantine_announcements=total["byzantine_delivers"], net_unreproduced_deadline_misses=total.get("unreproduced_deadline_misses", 0), net_scripts=total["scripts"], net_restarts=total["restarts"], net_steps=total["steps"], net_forges=total["forges"], net_delivers=total["delivers"],
                 net_branches=branches, net_sync_outcomes=syncs, net_scripts_with_finality=total["scripts_with_finality"],
-                net_finalized_prefix_pairs_compared=total["finalized_prefix_pairs_compared"], net_sample=(sample or [])[:4])
+                net_finalized_prefix_pairs_compared=total["finalized_prefix_pairs_compared"], net_sample=(sample or [])[:4],
+                # C04: finalize events drained from every node after every step
+                net_finality_raises_with_events_compared=total["finality_raises_with_events_compared"],
+                net_finality_raises_through_sync_with_events_compared=total["finality_raises_through_sync_with_events_compared"],
+                net_finalize_events_compared=total["finalize_events_compared"])
